@@ -1,6 +1,6 @@
 (* pqref commands for Impl/Paths.v and Dataset/Merge.v (C14). *)
 From Coq Require Import NArith ZArith List String Ascii Bool.
-From Pq Require Import Base.Bytes Impl.Partition Impl.Paths Dataset.Merge Dataset.CatRead Dataset.CatGuard Extract.Sx Extract.Cmd_Partition.
+From Pq Require Import Base.Bytes Impl.Partition Impl.Paths Dataset.Merge Dataset.CatRead Dataset.CatGuard Dataset.SchemaEq Extract.Sx Extract.Cmd_Partition.
 Import ListNotations.
 Open Scope string_scope.
 
@@ -71,5 +71,16 @@ Definition h_cat_guard (a : list sx) : sx :=
   | _ => err "arity"
   end.
 
+(* (schema_eqb schema1 schema2) -> 1 / 0; a schema = (element ...), an element = ((path atom) ...), a path = (field-id ...),
+   an atom = integer | #bytes | () for a struct without fields (Dataset/SchemaEq.v) *)
+Definition as_atom (s : sx) : option atom :=
+  match s with SZ z => Some (AZ z) | SB b => Some (AB b) | SL [] => Some AUnit | _ => None end.
+Definition as_schema : sx -> option (list elem) := as_list_of (as_list_of (as_pair (as_list_of as_N) as_atom)).
+Definition h_schema_eqb (a : list sx) : sx :=
+  match a with
+  | [s1; s2] => match as_schema s1, as_schema s2 with Some s1, Some s2 => sbool (schema_eqb s1 s2) | _, _ => err "args" end
+  | _ => err "arity"
+  end.
+
 Definition table : list (string * handler) :=
-  [("analyse_paths", h_analyse_paths); ("merge", h_merge); ("cat_guard", h_cat_guard)].
+  [("analyse_paths", h_analyse_paths); ("merge", h_merge); ("cat_guard", h_cat_guard); ("schema_eqb", h_schema_eqb)].
